@@ -47,11 +47,12 @@ pub(crate) fn del_timer_stub(_s: &Scheduler, h: TimeoutHandle<TimerData>) {
 }
 
 /// what the timer thread does when the entry expires (scheduler.rs `timer_event_handler`, a closure inside
-/// `init_scheduler` that cannot be called from a harness; this is a line-for-line copy): take the coroutine,
+/// `init_scheduler` that cannot be called from a harness; this is a copy, except for the error payload): take the coroutine,
 /// hand it the TimedOut result, run it
 pub(crate) fn timer_fires(c: &TimerData) {
     if let Some(mut co) = c.take() {
-        crate::yield_now::set_co_para(&mut co, std::io::Error::new(std::io::ErrorKind::TimedOut, "timeout"));
+        // (the real closure builds `io::Error::new(TimedOut, "timeout")`; same kind, no heap payload — see io_error_other_stub)
+        crate::yield_now::set_co_para(&mut co, std::io::Error::from(std::io::ErrorKind::TimedOut));
         crate::coroutine_impl::run_coroutine(co);
     }
 }
